@@ -90,6 +90,8 @@ def monitor_sched(case_lines, out_lines, S, F):
     ev_seen = 0
     marked = {}   # thread -> node offset it has marked removed and not yet unlinked / restored
     inc_total = 0
+    last_ld, writes, aba_inserts = {}, {}, []   # (tid, loc) -> index of the thread's last load; loc -> [(index, tid)]
+    rewound_ = any(x and x[0] in ("rewind", "clear") for ops_ in progs.values() for x in ops_) or any(x and x[0] in ("rewind", "clear") for x in pre_ops)
     di0 = None
     try:
         last_pre = vlib.parse_obs(out_lines[len(pre_ops)]) if out_lines else {}
@@ -129,6 +131,18 @@ def monitor_sched(case_lines, out_lines, S, F):
                 live.pop(int(ops[i][1]), None)
             if o.get("loc") == "refs" and o.get("k") == "fas" and o.get("new") == "0":
                 refs_zero_by = tid
+            # ABA bookkeeping: a linking CAS of a release (optimistic_dealloc#0 / pessimistic_dealloc#0) that succeeds although the
+            # predecessor word was rewritten by other threads between the inserter's read of it and the CAS (A -> B -> A)
+            loc_ = o.get("loc", "")
+            if o.get("k") == "ld":
+                last_ld[(tid, loc_)] = ev_seen
+            elif o.get("ok") == "1":
+                sn_ = site_name(o.get("at"), S, F)
+                if o.get("k") == "cas" and sn_.split("#")[0] in ("optimistic_dealloc", "pessimistic_dealloc"):
+                    since = last_ld.get((tid, loc_), -1)
+                    if any(i_ > since and t_ != tid for (i_, t_) in writes.get(loc_, [])):
+                        aba_inserts.append((tid, loc_, sn_))
+                writes.setdefault(loc_, []).append((ev_seen, tid))
             # C20: discarded() never decreases (no clear in these programs) ...
             if o.get("loc") == "disc" and o.get("ok") == "1" and o.get("k") != "ld":
                 if int(o.get("new", "0")) < int(o.get("old", "0")) and int(o.get("old", "0")) < (1 << 32) - (1 << 20):
@@ -183,6 +197,37 @@ def monitor_sched(case_lines, out_lines, S, F):
         elif kind == "final":
             if o.get("lv") == "0":
                 V.append(("C02", "bytes-changed", "final verification: the bytes of a live handle were modified by someone else"))
+            # C10: at the quiescent end the list is well formed: finite, aligned, below the cursor, no marked node, ordered by
+            # the policy, disjoint from the live handles
+            if "fl" in o and "al" in o:
+                try:
+                    fl_ = vlib.parse_fl(o.get("fl"))
+                except Exception:
+                    fl_ = None
+                kind_ = cfg.get("freelist")
+                if fl_ is not None and not rewound_ and not any(x.startswith(("hang", "died")) for x in out_lines):
+                    if None in fl_:
+                        V.append(("C10", "cycle", "at the quiescent end the free-list walk does not terminate"))
+                    else:
+                        al_ = int(o["al"])
+                        for s_ in fl_:
+                            if s_[0] % 8 != 0 or s_[0] + 8 + s_[1] > al_:
+                                V.append(("C10", "seg-shape", f"segment {s_} is misaligned or ends above the cursor {al_}"))
+                            if s_[1] == 0:
+                                V.append(("C10", "seg-marked", f"segment {s_} is still marked removed on the quiescent list {fl_}"))
+                            for (o2, c2) in list(live.values()) + dead:
+                                if c2 > 0 and o2 < s_[0] + 8 + s_[1] and s_[0] < o2 + c2:
+                                    V.append(("C10", "seg-overlaps-live", f"segment {s_} overlaps the live range [{o2},{o2+c2})"))
+                        for a_, b_ in zip(fl_, fl_[1:]):
+                            osig = "order:after-aba-insert" if aba_inserts else "order"
+                            oexp = (f" (thread {aba_inserts[0][0]} linked its segment with a CAS at {aba_inserts[0][2]} on {aba_inserts[0][1]}, a word other threads"
+                                    f" had rewritten to another value and back since it read it: its position was chosen from a stale neighbour)") if aba_inserts else ""
+                            if kind_ == "opt" and a_[1] < b_[1]: V.append(("C10", osig, f"quiescent list not descending: {fl_}{oexp}"))
+                            if kind_ == "pess" and a_[1] > b_[1]: V.append(("C10", osig, f"quiescent list not ascending: {fl_}{oexp}"))
+                        ext_ = sorted((s_[0], s_[0] + 8 + s_[1]) for s_ in fl_)
+                        for a_, b_ in zip(ext_, ext_[1:]):
+                            if a_[1] > b_[0]: V.append(("C10", "seg-overlap", f"segments overlap on the quiescent list: {fl_}"))
+                        if kind_ == "none" and fl_: V.append(("C10", "none-has-list", f"Freelist::None has segments {fl_}"))
             # ... and every completed increase_discarded(n) is in it (other operations only add)
             if di0 is not None and "di" in o and inc_total and int(o["di"]) < di0 + inc_total and di0 + inc_total < (1 << 32):
                 V.append(("C20", "increase-lost", f"discarded() = {o['di']} at the end, but it was {di0} before the threads started and they completed increase_discarded calls worth {inc_total}"))
